@@ -33,9 +33,9 @@ def scopes(tier):
     # matchrule semantics (what "a matching exception" means): all single rules and pairs of rules over a
     # small alphabet, inverted or not, data shorter / longer than the values
     if q:
-        out.append(("static", {"Parts": '{"size", "match", "cri", "xlist"}', "MSyms": "{1, 2, 3}", "MCi": "{FALSE, TRUE}"}))
+        out.append(("static", {"Parts": '{"size", "match", "cri", "xlist", "rlist", "skey"}', "MSyms": "{1, 2, 3}", "MCi": "{FALSE, TRUE}"}))
     else:
-        out.append(("static", {"Parts": '{"size", "match", "cri", "xlist"}', "MSyms": "{1, 2, 3}", "MCi": "{FALSE, TRUE}", "MPairLens": "{1, 2, 3}"}))
+        out.append(("static", {"Parts": '{"size", "match", "cri", "xlist", "rlist", "skey"}', "MSyms": "{1, 2, 3}", "MCi": "{FALSE, TRUE}", "MPairLens": "{1, 2, 3}"}))
     # a rule gives source 2 its own threshold, below / equal / above the global one; long enough to flood a
     # banned source beyond unban * its threshold and then keep it silent for unban + 1 rounds
     rthr = dict(sp, NSrc="2", Kinds='{"n"}', Dts="{1}", Modes='{"rules"}', Us="{4, 1}")
@@ -87,50 +87,66 @@ def schedulable(c):
 
 
 def strict_runs(ctx):
-    """The deviation switches are exact: with a switch on the strict invariant fails in TLC (and the
-    counterexample must reproduce on the real code, see below); with both off everything strict holds."""
+    """(a) The deviation switches are exact: with a switch on the strict invariant fails in TLC (and the counterexample must
+    reproduce on the real code, see run); with both off everything strict holds.  (b) Mechanism mutants: a specification
+    without the mechanism must violate the named invariant inside the replayed scope.  The runs are tiny; they are
+    started side by side (JVM start dominates)."""
+    import time
+    from concurrent.futures import ThreadPoolExecutor
     base = {"Parts": '{"spam"}', "NSrc": "1", "Kinds": ALL_KINDS, "Dts": "{1}", "MaxSteps": "7", "Ts": "{2}", "T2s": "{1}",
             "Us": "{4, 1}"}
-    r1 = ctx.tlc("Admission", "Admission_strict.cfg", timeout=300, deadlock=False, name="strict/residual-on",
-                 overrides=dict(base, Modes='{"exc"}', D_ResidualAfterUnban="TRUE", D_ExceptionsIgnoredWithRules="FALSE"))
-    r2 = ctx.tlc("Admission", "Admission_strict.cfg", timeout=300, deadlock=False, name="strict/exceptions-ignored-on",
-                 overrides=dict(base, Modes='{"rules"}', D_ResidualAfterUnban="FALSE", D_ExceptionsIgnoredWithRules="TRUE"))
-    r3 = ctx.tlc_expect_ok("Admission", "Admission_strict.cfg", timeout=300, deadlock=False, name="strict/both-off", count=False,
-                           overrides=dict(base, MaxSteps="6", Modes='{"exc", "rules"}', D_ResidualAfterUnban="FALSE",
-                                          D_ExceptionsIgnoredWithRules="FALSE"))
-    # mechanism mutants: a specification without the mechanism must violate the invariant inside the replayed scope
-    r4 = ctx.tlc("Admission", "Admission_mutant.cfg", timeout=300, deadlock=False, name="mutant/cap-by-global-threshold",
-                 overrides={"Parts": '{"spam"}', "NSrc": "2", "Kinds": '{"n"}', "Dts": "{1}", "MaxSteps": "8", "Ts": "{2, 3}",
-                            "T2s": "{1}", "Us": "{4, 1}", "Modes": '{"rules"}', "M_CapPerSource": "FALSE"})
-    r5 = ctx.tlc("Admission", "Admission_mutant.cfg", timeout=300, deadlock=False, name="mutant/shortcut-before-invert",
-                 overrides={"Parts": '{"match"}', "M_InvertAfterShortcut": "FALSE"})
-    r6 = ctx.tlc("Admission", "Admission_mutant.cfg", timeout=300, deadlock=False, name="mutant/lowered-in-place",
-                 overrides={"Parts": '{"match"}', "MSyms": "{1, 3}", "MCi": "{TRUE}", "M_LowerCopies": "FALSE"})
-    if r6.violated != "DataUnchanged":
-        raise vlib.Infra("specification mutant that folds case in place does not violate DataUnchanged (%s)" % r6.violated)
-    r7 = ctx.tlc("Admission", "Admission_mutant.cfg", timeout=300, deadlock=False, name="mutant/stale-error-into-decode",
-                 overrides={"Parts": '{"cri"}', "M_ErrClearedBeforeDecode": "FALSE"})
-    if r7.violated not in ("CriAdmitted", "CriVerdictIgnoresAntispam"):
-        raise vlib.Infra("specification mutant that keeps the timestamp-parse error does not violate CriAdmitted (%s)" % r7.violated)
-    r8 = ctx.tlc("Admission", "Admission_mutant.cfg", timeout=300, deadlock=False, name="mutant/exception-subject-sticks",
-                 overrides={"Parts": '{"xlist"}', "M_SubjectPerException": "FALSE"})
-    if r8.violated != "ExceptionListExempts":
-        raise vlib.Infra("specification mutant whose exception subject sticks does not violate ExceptionListExempts (%s)" % r8.violated)
-    if r4.violated != "UnbanWithin":
-        raise vlib.Infra("specification mutant without the per-source cap does not violate UnbanWithin (%s)" % r4.violated)
-    if r5.violated != "MatchAgrees":
-        raise vlib.Infra("specification mutant with the length shortcut ahead of Invert does not violate MatchAgrees (%s)" % r5.violated)
-    return {"residual_on_violates": r1.violated, "exceptions_ignored_on_violates": r2.violated, "both_off_ok": r3.ok,
-            "mutant_cap_global_violates": r4.violated, "mutant_shortcut_before_invert_violates": r5.violated,
-            "mutant_lowered_in_place_violates": r6.violated,
-            "mutant_stale_error_violates": r7.violated, "mutant_subject_sticks_violates": r8.violated}
+    jobs = [
+        ("r1", "Admission_strict.cfg", "strict/residual-on",
+         dict(base, Modes='{"exc"}', D_ResidualAfterUnban="TRUE", D_ExceptionsIgnoredWithRules="FALSE")),
+        ("r2", "Admission_strict.cfg", "strict/exceptions-ignored-on",
+         dict(base, Modes='{"rules"}', D_ResidualAfterUnban="FALSE", D_ExceptionsIgnoredWithRules="TRUE")),
+        ("r3", "Admission_strict.cfg", "strict/both-off",
+         dict(base, MaxSteps="6", Modes='{"exc", "rules"}', D_ResidualAfterUnban="FALSE", D_ExceptionsIgnoredWithRules="FALSE")),
+        ("r4", "Admission_mutant.cfg", "mutant/cap-by-global-threshold",
+         {"Parts": '{"spam"}', "NSrc": "2", "Kinds": '{"n"}', "Dts": "{1}", "MaxSteps": "8", "Ts": "{2, 3}", "T2s": "{1}",
+          "Us": "{4, 1}", "Modes": '{"rules"}', "M_CapPerSource": "FALSE"}),
+        ("r5", "Admission_mutant.cfg", "mutant/shortcut-before-invert", {"Parts": '{"match"}', "M_InvertAfterShortcut": "FALSE"}),
+        ("r6", "Admission_mutant.cfg", "mutant/lowered-in-place",
+         {"Parts": '{"match"}', "MSyms": "{1, 3}", "MCi": "{TRUE}", "M_LowerCopies": "FALSE"}),
+        ("r7", "Admission_mutant.cfg", "mutant/stale-error-into-decode", {"Parts": '{"cri"}', "M_ErrClearedBeforeDecode": "FALSE"}),
+        ("r8", "Admission_mutant.cfg", "mutant/exception-subject-sticks", {"Parts": '{"xlist"}', "M_SubjectPerException": "FALSE"}),
+        ("r9", "Admission_mutant.cfg", "mutant/last-matching-rule-wins", {"Parts": '{"rlist"}', "M_FirstRuleWins": "FALSE"}),
+        ("r10", "Admission_mutant.cfg", "mutant/empty-source-key-shared", {"Parts": '{"skey"}', "M_SourceFallsBackToInputId": "FALSE"}),
+    ]
+    res = {}
+
+    def one(job):
+        key, cfg, name, ov = job
+        return key, ctx.tlc("Admission", cfg, timeout=300, deadlock=False, name=name, overrides=ov, workers=2, heap="1g")
+
+    with ThreadPoolExecutor(max_workers=5) as ex:
+        futs = []
+        for j in jobs:
+            futs.append(ex.submit(one, j))
+            time.sleep(0.15)      # ctx.tlc numbers its scratch directories with a plain counter
+        for f in futs:
+            k, r = f.result()
+            res[k] = r
+    if not res["r3"].ok:
+        raise vlib.Infra("strict invariants fail with both deviation switches off: %s" % res["r3"].violated)
+    want = {"r4": ("UnbanWithin",), "r5": ("MatchAgrees",), "r6": ("DataUnchanged",),
+            "r7": ("CriAdmitted", "CriVerdictIgnoresAntispam"), "r8": ("ExceptionListExempts",), "r9": ("RuleListGoverns",),
+            "r10": ("SourceKeyAgrees", "NoSharedCounter")}
+    names = {j[0]: j[2] for j in jobs}
+    for k, inv in want.items():
+        if res[k].violated not in inv:
+            raise vlib.Infra("specification %s does not violate %s (%s)" % (names[k], "/".join(inv), res[k].violated))
+    out = {"residual_on_violates": res["r1"].violated, "exceptions_ignored_on_violates": res["r2"].violated, "both_off_ok": res["r3"].ok}
+    for k in want:
+        out[names[k]] = res[k].violated
+    return out
 
 
 def run(ctx):
     cfg = "Admission_quick.cfg" if ctx.tier == "quick" else "Admission_thorough.cfg"
     size_path = os.path.join(ctx.scratch, "c20_pipeline_cases.ndjson")
     spam_path = os.path.join(ctx.scratch, "c20_antispam_cases.ndjson")
-    n_size = n_spam = n_pipe_hist = n_match = n_cri = n_xl = 0
+    n_size = n_spam = n_pipe_hist = n_match = n_cri = n_xl = n_rl = n_rl_pipe = n_sk = 0
     per_scope = {}
     # share of histories that also go through Pipeline.In (unban iterations are the constant 4 there)
     pipe_budget = 24000 if ctx.tier == "quick" else 100000
@@ -165,6 +181,17 @@ def run(ctx):
                     fsp.write(line + "\n")
                     fsz.write(line + "\n")
                     n_xl += 1
+                elif part == "rlist":
+                    fsp.write(line + "\n")
+                    n_rl += 1
+                    # through Pipeline.In one pipeline per (global threshold, rule thresholds); In consults the
+                    # antispam only for a global threshold >= 0; quick: lists of one or two rules
+                    if c["g"] >= 0 and (ctx.tier != "quick" or len(c["rules"]) <= 2):
+                        fsz.write(line + "\n")
+                        n_rl_pipe += 1
+                elif part == "skey":
+                    fsz.write(line + "\n")
+                    n_sk += 1
                 else:
                     fsp.write(line + "\n")
                     n_spam += 1
@@ -203,7 +230,11 @@ def run(ctx):
         with open(size_path, "w") as fsz, open(spam_path, "w") as fsp:
             for r in recs:
                 c = r.get("case") or {}
-                if r.get("harness") == "antispam-xlist":
+                if r.get("harness") == "antispam-rlist":
+                    fsp.write(json.dumps(dict(r.get("rlist_case") or {}, part="rlist")) + "\n")
+                elif r.get("harness") in ("pipeline-rlist", "pipeline-skey"):
+                    fsz.write(json.dumps(dict(r.get("raw_case") or {}, part=r["harness"].split("-")[1])) + "\n")
+                elif r.get("harness") == "antispam-xlist":
                     fsp.write(json.dumps(dict(r.get("xlist_case") or {}, part="xlist")) + "\n")
                 elif r.get("harness") in ("pipeline-cri", "pipeline-xlist"):
                     fsz.write(json.dumps(dict(r.get("raw_case") or {}, part="cri" if r["harness"] == "pipeline-cri" else "xlist")) + "\n")
@@ -236,6 +267,11 @@ def run(ctx):
             raise vlib.Infra("antispam harness executed %d of %d histories" % (ra["executed"], n_spam))
         if ra["xlist_cases"] != n_xl or rp["misc"]["xlist_executed"] != n_xl:
             raise vlib.Infra("exception-list cases executed: antispam %d, pipeline %d of %d" % (ra["xlist_cases"], rp["misc"]["xlist_executed"], n_xl))
+        if ra["rlist_cases"] != n_rl or rp["misc"]["rlist_in_calls"] != 4 * n_rl_pipe:
+            raise vlib.Infra("rule-list cases executed: antispam %d of %d, pipeline In calls %d of %d" %
+                             (ra["rlist_cases"], n_rl, rp["misc"]["rlist_in_calls"], 4 * n_rl_pipe))
+        if rp["misc"]["skey_in_calls"] < n_sk:
+            raise vlib.Infra("pipeline harness made %d In calls for %d source-key cases" % (rp["misc"]["skey_in_calls"], n_sk))
         if rp["misc"]["cri_executed"] < 2 * n_cri:
             raise vlib.Infra("pipeline harness executed %d In calls for %d cri cases" % (rp["misc"]["cri_executed"], n_cri))
         if ra["match_cases"] != n_match:
@@ -282,7 +318,7 @@ def run(ctx):
         stale.append("D_ResidualAfterUnban is on in the specification but the real code no longer bans below threshold after an unban")
     if not ctx.replay and strict["exceptions_ignored_on_violates"] and not any(k.startswith("exception_dropped/false/true/exception") for k in counts):
         stale.append("D_ExceptionsIgnoredWithRules is on in the specification but the real code no longer drops exception matches when rules exist")
-    drift = ra.get("drift", 0) + rp["hist"].get("drift", 0) + ra.get("dump_drift", 0) + rp["misc"].get("xlist_drift", 0)
+    drift = ra.get("drift", 0) + rp["hist"].get("drift", 0) + ra.get("dump_drift", 0) + rp["misc"].get("xlist_drift", 0) + rp["misc"].get("rlist_drift", 0) + rp["misc"].get("skey_drift", 0)
     ctx.drift = drift + len(stale)
     for s in stale:
         vlib.log("MODEL-DRIFT:", s)
@@ -293,7 +329,7 @@ def run(ctx):
 
     # ---- evidence
     ctx.evaluations = ra["steps"] + rp["hist"]["steps"] + rp["size"]["executed"]
-    ctx.traces_validated = ra["xlist_cases"] + rp["misc"]["xlist_executed"] + rp["misc"]["cri_executed"] + ra["executed"] + ra["match_cases"] + rp["hist"]["executed"] + rp["sched"]["executed"] + rp["size"]["executed"]
+    ctx.traces_validated = ra["rlist_cases"] + n_rl_pipe + n_sk + ra["xlist_cases"] + rp["misc"]["xlist_executed"] + rp["misc"]["cri_executed"] + ra["executed"] + ra["match_cases"] + rp["hist"]["executed"] + rp["sched"]["executed"] + rp["size"]["executed"]
     ctx.nontrivial = ra["cases_with_ban"] + rp["size"]["cut_delivered"] + rp["size"]["kept_at_limit"]
     ctx.exhaustive = True
     ctx.rule = ("size: case = (body length 0..M+2, trailing newline, max_event_size 0..8, cut_off, cut-off field, decodable, "
@@ -306,11 +342,13 @@ def run(ctx):
                 "exception on the source name and as an unlimited do_if rule. cri: %d (zone, stream, full/partial, antispam setting) cases, each with 4 "
                 "well-formed lines through Pipeline.In with decoder cri and decoder auto + suggested cri (%d In calls, all must be admitted and "
                 "delivered with log/time/stream unaltered). exception lists: %d lists of 1..3 exceptions (record / source-name subject, matching "
-                "bits) through the real IsSpam and through Pipeline.In. Non-trivial = histories in which the real antispammer banned a source + size cases that were cut and "
+                "bits) through the real IsSpam and through Pipeline.In. rule lists: %d (global threshold, 1..3 rules with matching bit and threshold -1/0/1..3) "
+                "cases, 4 arrivals each on the real IsSpam, %d of them also through Pipeline.In. source key: %d interleavings of <= 4 records of two "
+                "inputs with / without the meta key x source_name_meta_field unset / set on a running pipeline. Non-trivial = histories in which the real antispammer banned a source + size cases that were cut and "
                 "delivered or sat exactly at the limit." %
                 (n_size, rp["size"]["executed"], rp["size"]["delivered"], rp["size"]["cut_delivered"], rp["size"]["kept_at_limit"],
                  n_spam, json.dumps(per_scope), ra["steps"], ra["bans"], ra["unbans"], ra["determined"], n_pipe_hist, n_sched, rp["sched"]["banned_then_admitted"], n_match,
-                 n_cri, rp["misc"]["cri_executed"], n_xl))
+                 n_cri, rp["misc"]["cri_executed"], n_xl, n_rl, n_rl_pipe, n_sk))
     for s in samples[:4]:
         ctx.sample(s)
     ctx.extra["c20"] = {"scopes": per_scope, "strict_runs": strict, "antispam_harness": {k: ra[k] for k in ra if k not in ("violations", "drift_samples")},
@@ -330,6 +368,7 @@ def run(ctx):
         "rule (pipeline/doif, decided under C14) is compared with the same declarative meaning",
         "scheduled-maintenance family: only admissions are asserted (records the statement says cannot be refused, in particular "
         "after a pause of 10 x the silent rounds + 300 ms); nothing is ever required to be still banned",
+        "source key: meta values are not decimal numbers (Pipeline.In uses the meta value and the decimal input id in one key space)",
         "IsSpam/Maintenance are replayed sequentially; concurrent callers of one source (unsynchronised read-modify-write) are not covered",
         "ban state = counter >= the source's threshold, read in-package after every step (Dump() cross-checked)",
     ]
